@@ -13,6 +13,11 @@ mod c06;
 mod c07;
 mod c07cli;
 mod c09;
+mod c10;
+mod c11;
+mod c12;
+mod genprog;
+mod irdecode;
 mod prog;
 mod cli;
 mod fnplane;
@@ -77,6 +82,8 @@ fn main() {
         eprintln!("replay of {} is not implemented for this witness kind; see the witness JSON", r);
         std::process::exit(2);
     }
+    // witnesses of earlier runs of this property are stale
+    let _ = std::fs::remove_dir_all(format!("{}/replay/{}", report::verif_root(), id));
     let mut rep = Report::new(&id, &tier, seed);
     rep.print_findings = print_findings;
     let (rule, exhaustive, assumptions): (&str, bool, Vec<&str>) = match id.as_str() {
@@ -107,6 +114,18 @@ fn main() {
         "C09" => {
             c09::run(&rep);
             (c09::RULE, false, vec![A_CLI, "panics are observed with catch_unwind in process and as exit status 101/134/signal for the binary; overflow checks and debug assertions are on in both builds"])
+        }
+        "C10" => {
+            c10::run(&rep);
+            (c10::RULE, true, vec![A_CLI, "run-time state errors (ret without call) are excluded by pre-loading the call stack; panics met on the way are filed under C09/C15"])
+        }
+        "C11" => {
+            c11::run(&rep);
+            (c11::RULE, false, vec![A_CLI, "the independent IR reader is liberal; a line it cannot read is counted inconclusive, the metamorphic clause does not depend on the IR format", "the driver's comment-stripping rule is replicated in the harness and cross-checked against the binary"])
+        }
+        "C12" => {
+            c12::run(&rep);
+            (c12::RULE, false, vec![A_CLI, "the driver's data-loading sequence (DataParser over every data line, then DS=0) is replicated in process and cross-checked against the binary's memory dump"])
         }
         "C06" => {
             c06::run(&rep);
